@@ -108,6 +108,8 @@ def gen_rhs(rng, n):
     # "one": the operand has length 1 and is broadcast over x (fresh Array / ndarray / Quantity operands only)
     rhs = {"kind": kind, "unitrel": unitrel, "vals": gen_vals(rng, n, "f8"), "num": float(rng.choice([2, 4, 0.5, 3, 1, 1, 100, 0.01] if kind in ("s_arr", "s_qty") else [2, 4, 0.5, 3, 1])),
            "pick": rng.randrange(64), "one": rng.random() < 0.15}
+    if kind == "live":
+        rhs["raw"] = rng.choice([None, None, None, None, "nd", "qty"])
     if rng.random() < 0.2:
         # operands that are not representable in single precision (0.1, 1/3, 2**24 + 1): a double-precision target keeps all their digits
         rhs["vals"] = [rng.choice([0.1, 1.0 / 3.0, 0.7, 16777217.0, round(rng.uniform(0.1, 9.0), 9)]) for _ in range(n)]
@@ -157,7 +159,9 @@ def generate(rng, tier):
             ops.append({"op": "slice", "h": h, "i": -1, "a": a, "b": b, "s": st})
             ops.append({"op": "vslice", "h": h, "i": vi, "a": a, "b": b, "s": st})
             ops.append({"op": "inplace", "h": h, "i": -1, "sym": rng.choice("+-*/"),
-                        "rhs": {"kind": "live", "unitrel": "same", "vals": gen_vals(rng, n, "f8"), "num": 2.0, "pick": -2}})
+                        "rhs": {"kind": "live", "unitrel": "same", "vals": gen_vals(rng, n, "f8"), "num": 2.0, "pick": -2,
+                                # the operand may be the raw buffer of that view (ndarray), or a Quantity wrapped around it
+                                "raw": rng.choice([None, None, "nd", "qty"])}})
         elif r < 0.80:
             # reuse chain: y (other, compatible unit) is an operand, then y's data change through a *view* of y, then y is an
             # operand again -- whatever the library remembered about y the first time must not be reused
@@ -610,6 +614,15 @@ def execute(case, stats):
                     yvals = [G.vals(o).astype(np.float64) for o in yleaves]
                     if hy[0] == "arr":
                         yvals = yvals * len(xl)  # an Array is broadcast to every component
+                        if rhs.get("raw") == "nd":
+                            # the caller passes the Array's buffer itself: a plain ndarray (dimensionless numbers)
+                            y, yu = y.values, U.of("")
+                            stats.inc("probe.operand_is_the_raw_buffer_of_a_live_array")
+                        elif rhs.get("raw") == "qty":
+                            y = y.unit._REGISTRY.Quantity(y.values, y.unit)
+                            if not np.shares_memory(y.magnitude, real_of(hy).values):
+                                raise HarnessError("Quantity construction copied the buffer")
+                            stats.inc("probe.operand_is_a_quantity_around_the_buffer_of_a_live_array")
                 elif rk in ("arr", "qty", "vec", "s_arr", "s_qty"):
                     names = [nm for nm, (s, d) in BASE.items()]
                     if rhs["unitrel"] == "same":
